@@ -311,6 +311,28 @@ fn check_coloured(c: &ColouredCase) -> Verdict {
             }
         }
     }
+    // the font page is handed to both directions: under every page the round trip must close (nothing is asserted about whether
+    // the page may influence the mapping, only that both directions agree)
+    if claimed {
+        for page in (0..=47usize).chain([63, 100, 255, 1000]) {
+            let mut a = TextAttribute::default();
+            a.set_font_page(page);
+            if c.what < 256 {
+                let uni = conv.convert_to_unicode(AttributedChar::new(char::from_u32(code).unwrap(), a));
+                let back = conv.convert_from_unicode(uni, page) as u32;
+                if back != code {
+                    return Verdict::fail(format!("code_roundtrip_under_font_page|conv={t}"), format!("font page {page}: code {code:#04x} -> U+{:04X} -> code {back:#04x}", uni as u32));
+                }
+            } else {
+                let ch = typed_chars()[(c.what - 256) as usize];
+                let code_p = conv.convert_from_unicode(ch, page) as u32;
+                let back = if code_p < 256 { Some(conv.convert_to_unicode(AttributedChar::new(char::from_u32(code_p).unwrap(), a))) } else { None };
+                if back != Some(ch) {
+                    return Verdict::fail(format!("typed_roundtrip_under_font_page|conv={t}"), format!("font page {page}: {ch:?} -> code {code_p:#04x} -> {back:?}"));
+                }
+            }
+        }
+    }
     Verdict::pass(claimed, format!("{t}|{}", if claimed { "claimed" } else { "unclaimed" }))
 }
 
@@ -409,7 +431,7 @@ fn main() {
          expressible and not the all-zero tuple. codes: 256 codes x {CP437, PETSCII, ATASCII, Viewdata}; the round trip is asserted for CP437 (256) and \
          ATASCII (0..128), the other 640 codes are only exercised (class '<conv>|unclaimed|returns/collapses', never non-trivial). typed: a-z, A-Z, 0-9, space x 4 converters; \
          every case non-trivial. attr_flags: every tuple x {each of the eight attribute flags a byte has no room for, all of them, font page 3}: the byte equals the byte of the plain tuple. \
-         codes_under_attributes: every code and every typed character x 4 converters, each walked through 16 x 16 colour pairs x {plain, bold, blink, all flags}: same Unicode character as with the default attribute, and (claimed codes) back to the same code.",
+         codes_under_attributes: every code and every typed character x 4 converters, each walked through 16 x 16 colour pairs x {plain, bold, blink, all flags}: same Unicode character as with the default attribute, and (claimed codes) back to the same code; and under every font page 0..=47, 63, 100, 255, 1000 handed to both directions the round trip closes.",
     );
     eng.assume("letters, digits and space have their ASCII code in CP437, ATASCII and Viewdata; in PETSCII (shifted character set) the two letter cases are exchanged, digits and space as ASCII");
     eng.assume("flags outside the attribute byte (faint, italic, underline, ... , font page) and a cell's colours are no part of the statement's domain description, so they must not influence either codec");
